@@ -23,7 +23,30 @@ struct HistHarness : eng::Harness {
     // transparent huge pages make every first touch zero 2 MiB (13x slower cases); disabled at the OS level, the allocator code path is unchanged
     prctl(PR_SET_THP_DISABLE, 1, 0, 0, 0);
     init_classes(); init_strsrc(); vf_clock_virtual(1); }
+  // C07: fault enumeration. Workload j = idx / PER is probed fault-free once (OS calls per kind up to `recover`), then every
+  // (kind, k, once|persistent) with k below the measured count is one case; slots beyond the list are skipped.
+  struct { uint64_t wl = UINT64_MAX; Case base; std::vector<std::tuple<int, long, int>> list; } c07;
+  static const uint64_t C07_PER = 640;
+  Case generate_c07(uint64_t idx) {
+    uint64_t wl = idx / C07_PER, f = idx % C07_PER;
+    if (c07.wl != wl) {
+      Chooser wch(eng::mix(eng::mix(seed, 0xC07), wl)); c07.base = gen_c07_workload(wch); c07.wl = wl; c07.list.clear();
+      eng::Outcome o = eng::run_forked(*this, "C07", c07.base, timeout_s);
+      if (o.status == eng::ST_PASS) {
+        const char* tier = getenv("VERIF_TIER"); bool thorough = tier && std::string(tier) == "thorough";
+        static const int kinds[5] = { VF_MAP, VF_UNMAP, VF_COMMIT, VF_PROTECT, VF_ADVISE }; static const int cidx[5] = { C_OS_MAP, C_OS_UNMAP, C_OS_COMMIT, C_OS_PROTECT, C_OS_ADVISE };
+        for (int ki = 0; ki < 5; ki++) { long n = (long)o.res.counters[cidx[ki]]; long dense = thorough ? 200 : 40;
+          for (long k = 0; k < n; k += (k < dense ? 1 : (thorough ? 3 : 9))) for (int pers = 0; pers < 2; pers++) c07.list.push_back({ kinds[ki], k, pers }); }
+      }
+    }
+    if (f >= c07.list.size()) { Case s; s.push_back(Op("skip")); return s; }
+    static const char* KN[] = { "map", "unmap", "commit", "protect", "advise", "other" };
+    Case c = c07.base; auto [kind, k, pers] = c07.list[f];
+    for (auto& op : c) if (op.name == "fault") { op.kv.clear(); op.s("kind", KN[kind]).u("k", (uint64_t)k).u("pers", (uint64_t)pers); }
+    return c;
+  }
   Case generate(const std::string& mode, Chooser& ch, uint64_t idx) override {
+    if (mode == "C07") return generate_c07(idx);
     Case special; if (generate_special(mode, ch, idx, special)) return special;
     Profile pf = profile_for(mode); Gen g(ch, pf);
     if (mode == "C13") { gen_option_prefix(g, idx); g.pf.min_ops += (int)g.out.size(); g.pf.max_ops += (int)g.out.size(); }
@@ -39,6 +62,7 @@ struct HistHarness : eng::Harness {
     ex.police_purge = (mode == "C13");
     if (execute_special(mode, c, ex)) return;
     if (ex.police_purge || mode == "C18") install_purge_police(ex);
+    if (mode == "C07") vf_set_event_fn(&c07_event);
     ex.run(c);
   }
 };
